@@ -138,14 +138,68 @@ Theorem c05_no_panic_without_charge : forall env tx ip s,
 Proof. exact handle_invoke_panic. Qed.
 Print Assumptions c05_no_panic_without_charge.
 
-(** (8) The no-wrap side. If MIN_TRANSACTION_GAS*GasPrice, GasLimit*GasPrice and
-    codeLenGas*GasPrice do not wrap (and sc.Gas only decreases), the amount a failing transaction is
-    asked to pay ([r_req]) is at most the balance the handler read — before execution, or after it
-    for the charge made on the transaction's own cache — so the charge cannot fail for lack of
-    funds; and costInvalidGas then collects exactly that amount when the payer signed and the two
-    records are readable and storable. (Without the hypotheses: [c05_wrap_free_failure] below.) *)
+(** (8) Overflow-checked fee products (/repo 667fe5ca), for ALL gas prices. common.SafeMul returns
+    the wrapped product and whether the exact product needs more than 64 bits ([c05_safe_mul]).
+    The pre-checks of a charged transaction therefore end in one of three ways
+    ([c05_checked_prechecks]): the whole balance is charged (a product overflowed or exceeds it),
+    or GasLimit*GasPrice is charged (exact, below codeLenGas*GasPrice <= balance), or the script
+    runs with MIN_TRANSACTION_GAS*GasPrice and codeLenGas*GasPrice exact and covered by the balance
+    and codeLenGas <= GasLimit. In that last case nothing else can wrap ([c05_nothing_else_wraps]:
+    this is why checking those two products suffices): codeLenGas <= available <= GasLimit, the gas
+    handed to the engine is available - codeLenGas without underflow, the rounding unit
+    GasPrice*MIN_TRANSACTION_GAS is exact, and for sc.Gas <= that gas costGasLimit = available - sc.Gas
+    (or the floor), costGas = costGasLimit*GasPrice exactly and <= balance. Consequences: the engine
+    never gets more gas than GasLimit ([c05_engine_gas_within_limit]; before the repair
+    GasPrice = 2^63 with a code of >= 1024 bytes gave it 2^64 - codeLenGas and an endless loop never
+    returned: corpus/C05/hang-price-2p63.json), and the amount a failing transaction is asked to pay
+    is within the balance the handler read, with no no-wrap hypothesis ([c05_request_within_balance]);
+    costInvalidGas then collects exactly that amount when the payer signed and the two records are
+    readable and storable ([c05_charge_collects]).
+    Products that can still wrap: none that a transaction controls on the charged path.
+    calcGasByCodeLen's uint64(codeLen/1024)*codeGas wraps only for a governance-set gas-table value
+    above 2^64/(codeLen/1024) (the model uses the wrapped value, as the code does); on the UNcharged
+    path (GasPrice = 0, or height 0 / COMMIT_DPOS with a non-zero price) costGasLimit*GasPrice is
+    0 resp. may wrap, but it is only reported as GasConsumed of a successful system transaction,
+    never charged. *)
+Theorem c05_safe_mul : forall x y, x < two64 -> y < two64 -> safe_mul x y = (u64mul x y, two64 <=? x * y).
+Proof. exact safe_mul_spec. Qed.
+Print Assumptions c05_safe_mul.
+
+Theorem c05_checked_prechecks : forall env tx ip s cg old,
+  is_charge tx = true -> e_codegas env = Some cg -> get_balance s (t_payer tx) = Some old -> t_price tx < two64 ->
+  let clg := code_len_gas (t_codelen tx) cg in
+  let avail := if fee_ava_gt (t_limit tx) (fee_max_ava old (t_price tx)) then fee_max_ava old (t_price tx) else t_limit tx in
+  handle_invoke env tx ip s = cost_invalid tx s old \/
+  (t_limit tx < clg /\ clg * t_price tx <= old /\ handle_invoke env tx ip s = cost_invalid tx s (t_limit tx * t_price tx)) \/
+  (FEE_MIN_TRANSACTION_GAS * t_price tx <= old /\ clg * t_price tx <= old /\ clg <= t_limit tx /\
+   handle_invoke env tx ip s = exec_part env tx ip s true avail clg old).
+Proof. exact handle_invoke_charged. Qed.
+Print Assumptions c05_checked_prechecks.
+
+Theorem c05_nothing_else_wraps : forall price limit clg old left,
+  price <> 0 -> old < two64 -> limit < two64 ->
+  FEE_MIN_TRANSACTION_GAS * price <= old -> clg * price <= old -> clg <= limit ->
+  let avail := if fee_ava_gt limit (fee_max_ava old price) then fee_max_ava old price else limit in
+  clg <= avail /\ avail <= limit /\ fee_exec_gas avail clg = avail - clg /\
+  fee_fail_round price = price * FEE_MIN_TRANSACTION_GAS /\
+  (left <= fee_exec_gas avail clg ->
+   let cgl0 := fee_cost_limit avail left in
+   let cgl := if fee_cost_lt_min cgl0 then fee_cost_floor else cgl0 in
+   cgl0 = avail - left /\ fee_cost_gas cgl price = cgl * price /\ cgl * price <= old).
+Proof. exact exec_arith_exact. Qed.
+Print Assumptions c05_nothing_else_wraps.
+
+(** [r_req] of a StNoProbe result is the gas the engine was to be run with; with the interpreter
+    that never answers, StNoProbe is reached exactly when the handler gets as far as the engine. *)
+Theorem c05_engine_gas_within_limit : forall env tx s g,
+  t_limit tx < two64 -> t_price tx < two64 ->
+  r_status (handle_invoke env tx (fun _ _ => None) s) = StNoProbe ->
+  r_req (handle_invoke env tx (fun _ _ => None) s) = Some g -> g <= t_limit tx.
+Proof. exact engine_gas_within_limit. Qed.
+Print Assumptions c05_engine_gas_within_limit.
+
 Theorem c05_request_within_balance : forall env tx ip s cg old g,
-  is_charge tx = true -> e_codegas env = Some cg -> no_wrap3 cg tx -> t_limit tx < two64 ->
+  is_charge tx = true -> e_codegas env = Some cg -> t_limit tx < two64 -> t_price tx < two64 ->
   interp_gas_ok ip -> get_balance s (t_payer tx) = Some old ->
   r_status (handle_invoke env tx ip s) = StFail -> r_req (handle_invoke env tx ip s) = Some g ->
   g <= old \/
@@ -231,38 +285,46 @@ Example c05_nonvacuous :
   st_cache (r_state ex_r) = o_cache ex_out /\ st_cache (cache_reset (r_state ex_r)) = [].
 Proof. vm_compute. repeat split; reflexivity. Qed.
 
-(** The wrapping side, part two: GasPrice = floor(2^64/20000)+1 makes MIN_TRANSACTION_GAS*GasPrice
-    wrap to 8384; the failed transaction is charged 8384 * 10^-9 ONG instead of 20000 * GasPrice
-    (which would be 18.4 * 10^9 ONG). The property still holds (that is what moved and what is
-    reported). Observed on the implementation by the driver's boundary prices. *)
+(** Overflowing products, part one: GasPrice = floor(2^64/20000)+1 makes MIN_TRANSACTION_GAS*GasPrice
+    overflow (it would wrap to 8384, which is what the payer was charged before 667fe5ca); SafeMul
+    reports it and the failed transaction is charged its whole balance (1 ONG). *)
 Definition ex_ip0 : interp := fun _ _ => Some (mkOut (o_cache ex_out) false false 0 0).   (* out of gas at once *)
-Example c05_wrap_min_gas :
+Example c05_overflow_min_gas :
   let r := handle_invoke ex_env (mkTx ex_payer true 922337203685478 30000 10 false) ex_ip0 (cache_reset (ex_s 1000000000000000000%Z)) in
-  fee_min_gas 922337203685478 = 8384 /\ r_status r = StFail /\ r_gas r = 8384 /\
-  bal_in (abs_block (r_state r)) ex_payer = Some 999991616000000000%Z.
+  safe_mul FEE_MIN_TRANSACTION_GAS 922337203685478 = (8384, true) /\ r_status r = StFail /\ r_gas r = 1000000000 /\
+  bal_in (abs_block (r_state r)) ex_payer = Some 0%Z.
 Proof. vm_compute. repeat split; reflexivity. Qed.
 
-(** The wrapping side, part three: codeLenGas*GasPrice wraps (code of 839 KiB, GasPrice 2^40), the
-    balance test passes, GasLimit < codeLenGas asks for GasLimit*GasPrice = 2^60 > balance, the
-    transfer is refused and the failed transaction pays nothing — the conclusion of
-    [c05_request_within_balance] fails without its third hypothesis. (Still no violation of (1):
-    nothing moved, nothing reported.) *)
-Example c05_wrap_free_failure :
+(** Overflowing products, part two: codeLenGas*GasPrice overflows (code of 839 KiB, GasPrice 2^40)
+    while the other two products are exact. Before 667fe5ca the balance test passed on the wrapped
+    value, GasLimit < codeLenGas asked for GasLimit*GasPrice = 2^60 > balance, the transfer was refused
+    and the failed transaction paid nothing; now the whole balance (10^8 ONG here) is charged. *)
+Example c05_overflow_code_gas :
   let tx := mkTx ex_payer true 1099511627776 1048576 859136 false in
   let r := handle_invoke ex_env tx ex_ip (cache_reset (ex_s 100000000000000000000000000%Z)) in
   get_balance (cache_reset (ex_s 100000000000000000000000000%Z)) ex_payer = Some 100000000000000000 /\
   FEE_MIN_TRANSACTION_GAS * t_price tx < two64 /\ t_limit tx * t_price tx < two64 /\
   two64 <= code_len_gas (t_codelen tx) FEE_UINT_INVOKE_CODE_LEN_GAS * t_price tx /\
-  r_status r = StFail /\ r_req r = Some 1152921504606846976 /\ r_gas r = 0 /\
-  abs_block (r_state r) = abs_block (ex_s 100000000000000000000000000%Z).
+  r_status r = StFail /\ r_req r = Some 100000000000000000 /\ r_gas r = 100000000000000000 /\
+  bal_in (abs_block (r_state r)) ex_payer = Some 0%Z.
 Proof. vm_compute. repeat split; try reflexivity; discriminate. Qed.
 
-(** GasPrice = 2^59 (the repaired division by zero): the unit and the minimum are 0, the failing
+(** Overflowing products, part three (the hang): GasPrice = 2^63, code of 2100 bytes (codeLenGas
+    40000), GasLimit 10^7. Both products are multiples of 2^64: before 667fe5ca both tests passed on
+    0, available gas was balance/2^63 = 0 and the engine was handed 0 - 40000 = 2^64 - 40000 gas.
+    Now the interpreter is not consulted at all ([fun _ _ => None]) and the balance is charged. *)
+Example c05_overflow_no_engine :
+  let r := handle_invoke ex_env (mkTx ex_payer true 9223372036854775808 10000000 2100 false) (fun _ _ => None)
+              (cache_reset (ex_s 1000000000000000000%Z)) in
+  u64sub 0 40000 = 18446744073709511616 /\ r_status r = StFail /\ r_gas r = 1000000000.
+Proof. vm_compute. repeat split; reflexivity. Qed.
+
+(** GasPrice = 2^59 (the repaired division by zero): the wrapped unit is 0 and the product overflows, the failing
     transaction is charged the whole balance it had (1 ONG) and reports exactly that. *)
 Example c05_round_zero_example :
   let r := handle_invoke ex_env (mkTx ex_payer true 576460752303423488 20000 1 false) ex_ip0
               (cache_reset (ex_s 1000000000000000000%Z)) in
-  fee_fail_round 576460752303423488 = 0 /\ fee_min_gas 576460752303423488 = 0 /\
+  fee_fail_round 576460752303423488 = 0 /\ safe_mul FEE_MIN_TRANSACTION_GAS 576460752303423488 = (0, true) /\
   r_status r = StFail /\ r_gas r = 1000000000 /\ r_fee_events r = [1000000000] /\
   bal_in (abs_block (r_state r)) ex_payer = Some 0%Z.
 Proof. vm_compute. repeat split; reflexivity. Qed.
